@@ -161,10 +161,14 @@ class Retarget(Harness):
         for nm, fn in (("as_encoded_array", as_encoded_array), ("change_encoding", change_encoding)):
             try:
                 r = fn(mk(), dst)
-                assert r.encoding == dst
-                res[nm] = ctx.lst(dst.decode(r).ravel().raw())
             except Exception as e:
                 res[nm] = "raised:" + type(e).__name__
+                continue
+            assert r.encoding == dst
+            try:
+                res[nm] = ctx.lst(dst.decode(r).ravel().raw())
+            except IndexError:
+                res[nm] = "invalid"      # data was accepted but carries codes outside the target alphabet
         return res
 
     def _text(self, skel, codes):
@@ -185,6 +189,8 @@ class Retarget(Harness):
         conj = []
         for nm in ("as_encoded_array", "change_encoding"):
             r = out[nm]
+            if r == "invalid":
+                return False
             if isinstance(r, str):
                 if nm == "change_encoding":
                     # decode-then-encode must succeed exactly when every letter is in the target alphabet
@@ -203,6 +209,8 @@ class Retarget(Harness):
         text = [ord(src[cx[f"c{i}"]]) for i in range(skel["n"])]
         for nm in ("as_encoded_array", "change_encoding"):
             r = cout[nm]
+            if r == "invalid":
+                return f"{nm}({bytes(text).decode()!r} encoded with {skel['src']}, {skel['dst']}) was accepted but holds codes outside the target alphabet"
             if isinstance(r, str):
                 if nm == "change_encoding" and all(chr(t) in dst for t in text):
                     return f"change_encoding({bytes(text).decode()!r}: {skel['src']}->{skel['dst']}) {r} although every letter is in the target alphabet"
